@@ -351,9 +351,11 @@ class error_997_visitor(error_visitor.error_visitor):
         #seg_base = ['AK3', err_seg.seg_id, '%i' % err_seg.seg_count]
         valid_AK3_codes = ('1', '2', '3', '4', '5', '6', '7', '8')
         seg_base = pyx12.segment.Segment('AK3', '~', '*', ':')
-        seg_base.append(err_seg.seg_id)
+        # the identifier and the loop id come from the input: without this
+        # acknowledgement's own delimiters, which would add or split elements
+        seg_base.append(''.join([c for c in (err_seg.seg_id or '') if not self._contains_delimiter(c)]))
         seg_base.append('%i' % err_seg.seg_count)
-        if err_seg.ls_id:
+        if err_seg.ls_id and not self._contains_delimiter(err_seg.ls_id):
             seg_base.append(err_seg.ls_id)
         else:
             seg_base.append('')
